@@ -85,13 +85,14 @@ def WorldWf (w : World) : Prop := ∀ g, w.cg = some g → NF w.c g
 def TaskWf (c : Core) : Task → Prop
   | .ops self _ _ => NF c self
   | .hook x k arg => NF c x ∧ (∀ y, k = .init → arg = some y → adjacent c x y = true)
-  | .load _ => True
+  | .load _ _ => True
   | .clone _ => True
   | .move item dest => NF c item ∧ NF c dest
   | .moveStr item _ => NF c item
   | .fan item dest cur save => NF c item ∧ NF c dest ∧ (∀ ob, cur = some ob → NF c ob) ∧ (c.objs item).super = some dest ∧
       (∀ g, save = some g → NF c g)
   | .command a _ => NF c a
+  | .cmdloop a _ _ _ => NF c a
   | .present _ _ cur => ∀ ob, cur = some ob → NF c ob
   | .destruct ob => NF c ob
   | .dloop ob sup0 _ => NF c ob ∧ (c.objs ob).destructed = false ∧ (∀ s, sup0 = some s → NF c s)
